@@ -885,6 +885,82 @@ fn main() {
             out.emit(&json!({"summary": true, "counts": c, "max_alloc": maxalloc}));
             out.finish();
         }
+        // ---------------------------------------------------------------- realenc
+        // Frames built through the real constructors and encoded by the real encoder (`Frame::to_bytes`), with
+        // payload lengths and stream ids at every boundary between varint widths; the encoding of the sequence,
+        // cut in chunks, must decode to exactly those frames in order.
+        "realenc" => {
+            use radicle_node::wire::verif::{Control as FrameControl, StreamId};
+            use radicle_node::Link;
+            let mut out = Out::create(Path::new(args.req("--out")));
+            let mut rng = fastrand::Rng::with_seed(seed());
+            let lens: [usize; 14] = [0, 1, 62, 63, 64, 65, 300, 16382, 16383, 16384, 16385, 16386, 70000, 100000];
+            // stream numbers whose ids (n << 3 | kind << 1 | initiator) sit at the width boundaries
+            let seqs: [u64; 10] = [0, 1, 7, 8, 2047, 2048, 134217727, 134217728, (1 << 59) - 1, 2];
+            let (mut streams, mut frames_n, mut bad) = (0u64, 0u64, 0u64);
+            let n = args.num("--n", 60);
+            for it in 0..n {
+                let mut frames: Vec<Frame> = Vec::new();
+                let count = if it == 0 { lens.len() } else { rng.usize(1..6) };
+                for j in 0..count {
+                    let link = if rng.bool() { Link::Inbound } else { Link::Outbound };
+                    let seq = seqs[rng.usize(0..seqs.len())];
+                    let Ok(sid) = StreamId::git(link).nth(seq) else { continue };
+                    let len = if it == 0 { lens[j] } else { lens[rng.usize(0..lens.len())] };
+                    frames.push(match if it == 0 { 7 } else { rng.u8(0..8) } {
+                        0 => Frame::control(link, FrameControl::Open { stream: sid }),
+                        1 => Frame::control(link, FrameControl::Close { stream: sid }),
+                        2 => Frame::control(link, FrameControl::Eof { stream: sid }),
+                        _ => Frame::git(sid, (0..len).map(|i| (i % 251) as u8).collect()),
+                    });
+                }
+                let bytes: Vec<u8> = frames.iter().flat_map(|f| f.to_bytes()).collect();
+                for chunk in [1usize, 13, 1000, 16384, bytes.len().max(1)] {
+                    streams += 1;
+                    let res = guard(|| {
+                        let mut de = inbox(MAX_INBOX_SIZE);
+                        let mut got: Vec<Frame> = Vec::new();
+                        let mut err = None;
+                        'feed: for c in bytes.chunks(chunk) {
+                            if !de.input(c) {
+                                err = Some("inbox overflow".to_string());
+                                break;
+                            }
+                            loop {
+                                match de.next() {
+                                    Ok(Some(f)) => got.push(f),
+                                    Ok(None) => break,
+                                    Err(e) => {
+                                        err = Some(e.to_string());
+                                        break 'feed;
+                                    }
+                                }
+                            }
+                        }
+                        (got, err, de.unparsed())
+                    });
+                    let desc: Vec<Value> = frames.iter().map(|f| match &f.data {
+                        radicle_node::wire::verif::FrameData::Git(d) => json!(["git", u64::from(f.stream), d.len()]),
+                        radicle_node::wire::verif::FrameData::Control(_) => json!(["control", u64::from(f.stream)]),
+                        _ => json!(["gossip"]),
+                    }).collect();
+                    let breach = match res {
+                        Err(p) => Some(format!("panic: {p}")),
+                        Ok((got, Some(e), _)) => Some(format!("decode error after {} of {} frames: {e}", got.len(), frames.len())),
+                        Ok((got, None, rest)) if got != frames || rest != 0 => Some(format!("decoded {} frames ({} equal the encoded ones), {} bytes left unparsed",
+                            got.len(), got.iter().zip(frames.iter()).take_while(|(a, b)| a == b).count(), rest)),
+                        Ok(_) => None,
+                    };
+                    frames_n += frames.len() as u64;
+                    if let Some(b) = breach {
+                        bad += 1;
+                        out.emit(&json!({"ok": false, "frames": desc, "chunk": chunk, "breach": b}));
+                    }
+                }
+            }
+            out.emit(&json!({"summary": true, "streams": streams, "frames": frames_n, "bad": bad}));
+            out.finish();
+        }
         // ---------------------------------------------------------------- record
         "record" => {
             let n = args.num("--n", 200);
